@@ -105,13 +105,12 @@ def oracle_tok(evs, term, cs):
     pending = [r for r in recs if r.done is None]
 
     # ---- a library panic in a program that is a correct tokio program ----
+    # (acquire_many(0) / try_acquire_many(0) used to panic: finding C19-F2, fixed by /repo bc6ccc4 - a recurrence is a violation)
     if term.startswith("panic"):
-        zero = any(r.pre in ("ac", "ta") and r.args[1] == 0 for r in pending) or any(r.pre in ("ac", "ta") and r.args[1] == 0 for r in recs[-3:])
         invalid = any(o.kind == "c" and o.bound == 0 for o in objs) or any(o.kind == "w" and o.init == 0 for o in objs)
-        if zero:
-            out.append(("acquire_many(0) / try_acquire_many(0) panics (assert!(num_permits > 0)); tokio returns an empty permit", "C19-F2"))
-        elif not invalid:
-            out.append(("a library panic (%s) in a program that uses the API as tokio documents" % term, None))
+        if not invalid:
+            zero = any(r.pre in ("ac", "ta") and r.args[1] == 0 for r in pending)
+            out.append(("a library panic (%s) in a program that uses the API as tokio documents%s" % (term, " (an acquire of 0 permits is in progress: regression of C19-F2)" if zero else ""), None))
         return out
 
     # ---- mpsc: FIFO, exactly once, no loss, capacity ----
@@ -173,7 +172,7 @@ def oracle_tok(evs, term, cs):
                     if begun - rec_before + inflight < k:
                         leaked_before = sum(1 for s in recs_by_done if s.pre == "br" and s.args[0] == ci and s.tag == 61 and s.vals[1] == 0 and s.done < r.done)
                         if leaked_before:
-                            out.append(("try_send reports Full on bounded channel %d with free slots: blocking_recv never returns capacity" % ci, "C19-F1"))
+                            out.append(("try_send reports Full on bounded channel %d with free slots after %d blocking_recv values: capacity not returned (regression of C19-F1)" % (ci, leaked_before), None))
                         else:
                             out.append(("try_send reports Full on bounded channel %d (capacity %d) although at most %d slots can be in use" % (ci, k, begun - rec_before + inflight), None))
                 if r.tag == 65 and r.args[0] == ci and len(r.vals) == 3:
@@ -183,7 +182,7 @@ def oracle_tok(evs, term, cs):
                     if not busy and not closed and r.vals[0] + r.vals[2] != k:
                         lk = sum(1 for s in recs_by_done if s.pre == "br" and s.args[0] == ci and s.tag == 61 and s.vals[1] == 0 and s.done < r.done)
                         if lk and r.vals[0] + r.vals[2] + lk == k:
-                            out.append(("bounded channel %d at rest: len %d + capacity %d != %d: every blocking_recv kept a slot" % (ci, r.vals[0], r.vals[2], k), "C19-F1"))
+                            out.append(("bounded channel %d at rest: len %d + capacity %d != %d: every blocking_recv kept a slot (regression of C19-F1)" % (ci, r.vals[0], r.vals[2], k), None))
                         else:
                             out.append(("bounded channel %d at rest: len %d + capacity %d != %d" % (ci, r.vals[0], r.vals[2], k), None))
 
@@ -268,7 +267,7 @@ def deadlock_oracle(recs, recs_by_done, pending, ended, objs, evs):
                         out.append(("deadlock: send blocked on channel %d that is closed (it must fail instead)" % ci, None))
                     elif buf < o.bound:
                         if leaked and buf + leaked >= o.bound:
-                            out.append(("deadlock: send blocked on bounded channel %d holding %d of %d messages: blocking_recv never returned the capacity of %d values" % (ci, buf, o.bound, leaked), "C19-F1"))
+                            out.append(("deadlock: send blocked on bounded channel %d holding %d of %d messages: blocking_recv never returned the capacity of %d values (regression of C19-F1)" % (ci, buf, o.bound, leaked), None))
                         else:
                             out.append(("deadlock: send blocked on bounded channel %d holding only %d of %d messages" % (ci, buf, o.bound), None))
                 if r.pre in ("rc", "br"):
@@ -445,9 +444,9 @@ def notify_deadlock(recs, pending, ni, ended=None):
             bad = "%d notifications are unconsumed, only %d enabled futures are not being awaited" % (st["N"], idle_enabled)
         if bad:
             tag = None
-            if saw_na_with_permit:
-                tag = "C19-F5"
-            elif saw_drop_of_enabled:
+            if saw_na_with_permit and not saw_drop_of_enabled:
+                bad += " (a notify_waiters ran while a permit was stored: regression of C19-F5)"
+            if saw_drop_of_enabled:
                 tag = "C19-F3"
             out.append(("deadlock on Notify %d: %s" % (ni, bad), tag))
     return out
